@@ -4,7 +4,7 @@ engine, plus node level: the same grouping through SimpleGroupBy (hash) and Cust
 import json
 import props.rel as rel
 
-LEVEL = "model_checking"
+LEVEL = "exploration"     # cases are drawn from the specification under the TLC seed (a sample of a large space), expected results computed by TLC
 
 
 def run(ctx):
